@@ -1,3 +1,5 @@
 //! Shared generators (proptest strategies).
 pub mod soup;
 pub mod util;
+pub mod history;
+pub mod workspace;
